@@ -141,23 +141,22 @@ Theorem prefix_file ro sec i0 ops pre nxt post k :
   ro_mixed ro = true -> sec_ok sec -> ops_ok [] (WAddIf i0 :: ops) -> zlen ops < 4294967290 ->
   WAddIf i0 :: ops = pre ++ nxt :: post -> (k < length (enc_op nxt))%nat ->
   let file := write_file sec i0 ops in
-  let F := fuel_for (zlen file) in
+  forall F, (fuel_for (zlen file) <= F)%nat ->
   let cut := (length (enc_shb sec) + length (enc_ops pre) + k)%nat in
   let r := fst (run_d (session ro F) (firstn cut file)) in
   fst (fst (fst r)) = 0 /\ snd (fst (fst r)) = exp_pkts [] pre /\ snd (fst r) = (if (k =? 0)%nat then 1 else 2).
 Proof.
-  intros Hmix Hsec Hok Hb Hsplit Hk. cbv zeta.
-  destruct (write_file_shape sec i0 ops Hok Hb) as (Hfile & _). rewrite Hfile.
+  intros Hmix Hsec Hok Hb Hsplit Hk. cbv zeta. intros F HFge.
+  destruct (write_file_shape sec i0 ops Hok Hb) as (Hfile & _). rewrite Hfile in *.
   set (script := WAddIf i0 :: ops) in *.
   destruct (script_sizes script [] Hok) as (Sz1 & Sz2).
   destruct (enc_shb_shape sec Hsec) as (Eshb & HLs). cbv zeta in *.
   assert (28 <= zlen (enc_shb sec)) as Hshb.
   { rewrite Eshb. rewrite !zlen_app, !zlen_le_bytes. change (zlen [10;13;13;10]) with 4. change (zlen [77;60;43;26]) with 4.
     change (zlen shb_fixed) with 12. pose proof (zlen_nonneg (opts_enc (shb_options sec))). lia. }
-  set (F := fuel_for (zlen (enc_shb sec ++ enc_ops script))).
-  assert (Z.of_nat F = zlen (enc_shb sec) + zlen (enc_ops script) + 2) as HF
-    by (unfold F, fuel_for; rewrite zlen_app; pose proof (zlen_nonneg (enc_ops script)); lia).
-  pose proof (zlen_nonneg (enc_ops script)) as Hnn. clearbody F.
+  assert (Z.of_nat F >= zlen (enc_shb sec) + zlen (enc_ops script) + 2) as HF
+    by (unfold fuel_for in HFge; rewrite zlen_app in HFge; pose proof (zlen_nonneg (enc_ops script)); lia).
+  pose proof (zlen_nonneg (enc_ops script)) as Hnn. clear HFge.
   assert (fuel_ok F script) as Hfo.
   { split; [lia|]. eapply Forall_impl; [|exact Sz2]. intros [] Ha; auto. unfold zlen in *. lia. }
   assert (length script < F)%nat as HlF by (unfold zlen in *; lia).
